@@ -1,7 +1,7 @@
 (* C01 - property theorems.  Statements, `exact <lemma>`, Print Assumptions. *)
-From Coq Require Import String ZArith List Bool Permutation.
+From Coq Require Import String ZArith List Bool Permutation Sorted.
 From HD Require Import Base.Val C01_Model C01_Proofs C01_Proofs_Frames C01_Proofs_Lut C01_Proofs_Value C01_Proofs_Full
-  C01_Proofs_Hist C01_Proofs_Ext C01_Proofs_Sched C01_Proofs_Accept C01_Proofs_Tiled.
+  C01_Proofs_Hist C01_Proofs_Ext C01_Proofs_Sched C01_Proofs_Accept C01_Proofs_Tiled C01_Proofs_Pos.
 Import ListNotations.
 Open Scope Z_scope.
 
@@ -485,8 +485,10 @@ Print Assumptions C01_nonvacuous_extension.
 (* ------------------------------------------------------------------ *)
 (* the converse of C01_construct_succeeds: an array as numpy hands it over
    (well_formed: planes of Rows*Columns values, unsigned integers non-negative,
-   float label array = one segment, den > 0, max_fractional_value >= 0 - no
-   condition on the CONTENT of the mask) that the constructor accepts is valid *)
+   float label array = one mask (the only segment [1] for BINARY / FRACTIONAL, the
+   label 1 among ANY described numbers for LABELMAP - session 6, finding D117),
+   den > 0, max_fractional_value >= 0 - no condition on the CONTENT of the mask)
+   that the constructor accepts is valid *)
 Theorem C01_construct_ok_valid : forall c i perm st,
   construct c i perm = Ok st -> well_formed c i = true -> valid c i = true.
 Proof. exact construct_ok_valid. Qed.
@@ -667,3 +669,110 @@ Theorem C01_tiled_any_order_refuted :
     end.
 Proof. exact tiled_any_order_refuted. Qed.
 Print Assumptions C01_tiled_any_order_refuted.
+
+(* ------------------------------------------------------------------ *)
+(* session 6: the plane positions of the source (guard of               *)
+(* DimensionIndexSequence.get_index_values) and the label numbers a     *)
+(* LABELMAP object stores (fix of finding D117)                         *)
+(* ------------------------------------------------------------------ *)
+(* [dist] = per plane of the input array an integer stand-in of its position
+   (distance along the normal / rank of the slide position tuple).  The guard
+   'Input image/frame positions are not unique' (len(np.unique(..., return_index)
+   [1]) != number of planes) passes EXACTLY when the positions are pairwise
+   different ... *)
+Theorem C01_positions_unique_iff : forall dist, positions_unique dist = true <-> NoDup dist.
+Proof. exact positions_unique_iff. Qed.
+Print Assumptions C01_positions_unique_iff.
+
+(* ... then the plane sort index np.unique returns is a permutation of ALL plane
+   indices (no plane is left out of the frame loop) ... *)
+Theorem C01_unique_index_perm : forall dist, positions_unique dist = true ->
+  Permutation (unique_index dist) (zrange (zlen dist)).
+Proof. exact unique_index_perm. Qed.
+Print Assumptions C01_unique_index_perm.
+
+(* ... which lists the planes in strictly ascending order of their position *)
+Theorem C01_unique_index_ascending : forall dist,
+  StronglySorted Z.lt (map (fun j => nthz j dist 0) (unique_index dist)).
+Proof. exact unique_index_ascending. Qed.
+Print Assumptions C01_unique_index_ascending.
+
+(* two planes at one position are refused whatever the mask is (nothing is
+   stored) ... *)
+Theorem C01_duplicate_positions_refused : forall c i dist, ~ NoDup dist ->
+  exists k, construct_pos c i dist = Err k.
+Proof. exact duplicate_positions_refused. Qed.
+Print Assumptions C01_duplicate_positions_refused.
+
+(* ... and unique positions add no refusal: the constructor is [construct] with
+   the sort permutation *)
+Theorem C01_construct_pos_unique : forall c i dist, NoDup dist ->
+  construct_pos c i dist = construct c i (unique_index dist).
+Proof. exact construct_pos_unique. Qed.
+Print Assumptions C01_construct_pos_unique.
+
+(* THE PROPERTY with the positions of the source planes as an input and no
+   hypothesis on positions or content: whatever well-formed array the constructor
+   accepts, for whatever plane positions, reads back as the specification for
+   every request list passing the guards, from every object and cache state - in
+   particular no plane is dropped because another plane has the same position *)
+Theorem C01_positions_no_silent_corruption : forall c i dist st,
+  well_formed c i = true -> zlen dist = nsrc c -> construct_pos c i dist = Ok st ->
+  forall lazy warm req byframe am,
+    read_guard st req byframe am = Ok tt ->
+    read_g (frame_getter lazy warm st) st req byframe am = Ok (expected_req c i byframe req).
+Proof. exact positions_no_silent_corruption. Qed.
+Print Assumptions C01_positions_no_silent_corruption.
+
+(* LABELMAP: every pixel value of every stored frame of an accepted mask is 0 or a
+   DESCRIBED segment number - for every dtype and layout (incl. the floating point
+   3-D mask of finding D117, which used to be stored as the undescribed label 1) *)
+Theorem C01_stored_labels_described : forall c i perm st,
+  well_formed c i = true -> Permutation perm (zrange (nsrc c)) -> construct c i perm = Ok st ->
+  ty c = LABELMAP ->
+  forall f v, In f (s_frames st) -> In v f -> In v (0 :: segs c).
+Proof. exact stored_labels_described. Qed.
+Print Assumptions C01_stored_labels_described.
+
+(* the acceptance rule of the D117 fix: a floating point 0.0 / 1.0 label array for
+   a LABELMAP passes the pixel array check iff it is entirely zero or 1 is a
+   described segment number *)
+Theorem C01_float_label_accepted_iff : forall c ps,
+  dt c = DFloat -> ty c = LABELMAP -> 0 < den c ->
+  (forall k, In k (concat ps) -> k = 0 \/ k = den c) ->
+  ((exists a, check_and_cast c (Label ps) = Ok a) <->
+   (all_zero (concat ps) = true \/ In 1 (segs c))).
+Proof. exact float_label_accepted_iff. Qed.
+Print Assumptions C01_float_label_accepted_iff.
+
+(* non-vacuity: unique positions are accepted and sorted; two planes at one
+   position are refused although the mask is valid; WITHOUT the guard the index
+   list np.unique returns is one short and the plane of the later image reads back
+   all zero (what a disabled guard does) *)
+Example C01_nonvacuous_positions :
+  let c := Cfg BINARY DInt 1 1 true [1] 1 2 1 2 3 true in
+  let i := Label [[1; 0]; [0; 1]; [1; 1]] in
+  unique_index [0; -5; -2] = [1; 2; 0] /\
+  (exists st, construct_pos c i [0; -5; -2] = Ok st) /\
+  valid c i = true /\ construct_pos c i [0; -5; -5] = Err "ValueError"%string /\
+  unique_index [0; -5; -5] = [1; 0] /\
+  bind (construct c i [1; 0]) (fun st => read_by_instance false st [0; 1; 2] false)
+    = Ok [[[1]; [0]]; [[0]; [1]]; [[0]; [0]]] /\
+  expected c i = [[[1]; [0]]; [[0]; [1]]; [[1]; [1]]].
+Proof. exact nonvacuous_positions. Qed.
+Print Assumptions C01_nonvacuous_positions.
+
+(* non-vacuity (D117): the float mask for the single segment [5] is well-formed
+   and refused; the all-zero one is accepted; with [1; 5] the mask is valid, stored
+   as label 1 and expected back as segment 1 *)
+Example C01_nonvacuous_d117 :
+  let c5 := Cfg LABELMAP DFloat 1 1 true [5] 1 2 1 2 2 true in
+  let c15 := Cfg LABELMAP DFloat 4 1 true [1; 5] 1 2 1 2 2 true in
+  well_formed c5 (Label [[0; 1]; [1; 0]]) = true /\
+  construct c5 (Label [[0; 1]; [1; 0]]) [1; 0] = Err "ValueError"%string /\
+  (exists st, construct c5 (Label [[0; 0]; [0; 0]]) [1; 0] = Ok st) /\
+  well_formed c15 (Label [[0; 4]; [4; 0]]) = true /\ valid c15 (Label [[0; 4]; [4; 0]]) = true /\
+  bind (construct c15 (Label [[0; 4]; [4; 0]]) [1; 0]) (fun st => Ok (s_frames st)) = Ok [[1; 0]; [0; 1]] /\
+  expected c15 (Label [[0; 4]; [4; 0]]) = [[[0; 0]; [1; 0]]; [[1; 0]; [0; 0]]].
+Proof. exact nonvacuous_d117. Qed.
+Print Assumptions C01_nonvacuous_d117.
